@@ -27,6 +27,7 @@ macro_rules! core_ops2_impl {
                 "word_xor_multi_thread",
                 "word_sll_multi_thread",
                 "word_sltu_multi_thread",
+                "hal_scratch_split_mut",
             ];
 
             pub fn core_op2(op: &str, sh: &Shape, w: &Window) -> Option<RunResult> {
@@ -55,6 +56,72 @@ macro_rules! core_ops2_impl {
                     let mut bytes = Vec::new();
                     poulpy_hal::layouts::WriterTo::write_to(&key, &mut bytes).unwrap();
                     return Some(finish(r, declared, vec![bytes]));
+                }
+                if op == "hal_scratch_split_mut" {
+                    // The arena API the multi-thread entry points are built on, driven directly with window
+                    // sizes that are not multiples of the 64-byte alignment (no in-tree caller does that):
+                    // the n windows and the remainder must be pairwise disjoint usable ranges inside the parent.
+                    use poulpy_hal::api::{ScratchAvailable, TakeSlice};
+                    let n = 1 + (sh.extra as usize % 6);
+                    let len = if sh.flags & 1 == 0 {
+                        (sh.k_res as usize * 8 + sh.b_res as usize + (sh.seed % 97) as usize) % 700 + 1
+                    } else {
+                        64 * (1 + sh.k_in as usize % 9)
+                    };
+                    let tail = (sh.k_key as usize * 3 + (sh.seed >> 8) as usize % 64) % 200;
+                    let declared = n * len.next_multiple_of(64) + tail;
+                    let mut note: Option<String> = None;
+                    let mut lens: Vec<u8> = Vec::new();
+                    let mut r = windowed(declared, w, &mut |s| {
+                        fn range<B: poulpy_hal::layouts::Backend>(x: &mut Scratch<B>) -> (usize, usize)
+                        where
+                            Scratch<B>: ScratchAvailable + TakeSlice,
+                        {
+                            let a = x.available();
+                            let (sl, _) = x.take_slice::<u8>(a);
+                            (sl.as_ptr() as usize, sl.len())
+                        }
+                        let parent = range(s);
+                        let (mut wins, rem) = s.split_mut(n, len);
+                        let mut ranges: Vec<(usize, usize)> = wins.iter_mut().map(|x| range(x)).collect();
+                        ranges.push(range(rem));
+                        for (i, (a, l)) in ranges.iter().enumerate() {
+                            let what = if i == n { "the remainder".to_string() } else { format!("window {i}") };
+                            if i < n && *l < len.min(parent.1) && note.is_none() {
+                                // a window may lose bytes to re-alignment only when len is not a multiple of 64
+                                if len % 64 == 0 {
+                                    note = Some(format!("split_mut({n}, {len}): {what} holds {l} usable bytes"));
+                                }
+                            }
+                            if *l > 0 && (*a < parent.0 || a + l > parent.0 + parent.1) && note.is_none() {
+                                note = Some(format!("split_mut({n}, {len}): {what} [{}, +{l}) lies outside the parent of {} bytes", *a as i64 - parent.0 as i64, parent.1));
+                            }
+                            for (j, (b, m)) in ranges.iter().enumerate().take(i) {
+                                if *l > 0 && *m > 0 && a < &(b + m) && b < &(a + l) && note.is_none() {
+                                    let other = if j == n { "the remainder".to_string() } else { format!("window {j}") };
+                                    note = Some(format!("split_mut({n}, {len}): {what} [{}, +{l}) overlaps {other} [{}, +{m})", *a as i64 - parent.0 as i64, *b as i64 - parent.0 as i64));
+                                }
+                            }
+                        }
+                        // every owner fills its bytes, then everybody re-reads
+                        for (i, x) in wins.iter_mut().enumerate() {
+                            let a = x.available();
+                            x.take_slice::<u8>(a).0.fill(i as u8 + 1);
+                        }
+                        let a = rem.available();
+                        rem.take_slice::<u8>(a).0.fill(0xEE);
+                        for (i, x) in wins.iter_mut().enumerate() {
+                            let a = x.available();
+                            if x.take_slice::<u8>(a).0.iter().any(|b| *b != i as u8 + 1) && note.is_none() {
+                                note = Some(format!("split_mut({n}, {len}): bytes of window {i} were overwritten through another window"));
+                            }
+                        }
+                        lens = ranges.iter().take(n).map(|r| (r.1 >= len) as u8).collect();
+                    });
+                    if note.is_some() {
+                        r.1.arena_violation = note;
+                    }
+                    return Some(finish(r, declared, vec![lens]));
                 }
                 if !op.starts_with("word_") {
                     return None;
